@@ -326,6 +326,8 @@ def shape_wells(rng, ids):
         return enc(np.array(nested)), f"2d:{r}x{c}"
     if style == "array":
         return enc(np.array(ids)), "array"
+    if rng.random() < 0.15:
+        return enc(tuple(ids)), "tuple"
     return list(ids), "list"
 
 
@@ -338,7 +340,16 @@ def shape_volumes(rng, vols, like=None):
         r, c = map(int, like[3:].split("x"))
         nested = [[vols[j * r + i] for j in range(c)] for i in range(r)]
         return enc(np.array(nested)), like
-    style = rng.choice(["list", "array"])
+    style = rng.choice(["list", "array", "array", "tuple", "typed"])
     if style == "array":
         return enc(np.array(vols, dtype=float)), "array"
+    if style == "tuple":
+        return enc(tuple(vols)), "tuple"
+    if style == "typed":
+        # other numeric types with exactly the same values: python ints, integer / float32 arrays
+        if all(float(v).is_integer() and abs(v) < 2**31 for v in vols):
+            return rng.choice([[int(v) for v in vols], enc(np.array([int(v) for v in vols], dtype=np.int64))]), "ints"
+        # (float32 arrays are deliberately not generated: with NumPy 2 promotion rules `python_float *
+        #  numpy.float32` is evaluated in single precision, so the composition tracking inherits the
+        #  precision the caller chose for the volumes - not a question the properties decide)
     return list(vols), "list"
